@@ -77,6 +77,7 @@ TStep == /\ l >= 1 /\ l <= Len(Traces[tid].ev)
          /\ LET r == Step(Traces[tid], st, Traces[tid].ev[l], seen) IN
             IF r.why = "ok" THEN st' = r.st /\ seen' = r.seen /\ l' = l + 1 /\ tid' = tid
             ELSE /\ PrintT(<<"REJ", Traces[tid].id, l, r.why>>)
+                 /\ (r.seen < Len(r.st.out) => PrintT(<<"EXPECTED", Traces[tid].id, r.st.out[r.seen + 1]>>))
                  /\ l' = 0 /\ UNCHANGED <<st, seen, tid>>
 TDone == /\ l = Len(Traces[tid].ev) + 1
          /\ IF seen = Len(st.out) THEN PrintT(<<"ACC", Traces[tid].id>>)
